@@ -142,6 +142,11 @@ pub fn run_history(cfg: &BackendCfg, hist: &[Op], scratch: &Scratch, tag: usize)
             Err(e) if e.contains("index full") && matches!(op, Op::Ins { .. }) && model.docs.len() >= cfg.capacity => {
                 out.refused_full += 1;
             }
+            // cosine / inner product refuse a vector whose squared norm is <= f32::EPSILON as
+            // zero-norm (numeric grid, magnitude 1e-3): a refusal of unusable input, no effect
+            Err(e) if e.contains("norm is zero") && !matches!(metric, kyrodb_engine::config::DistanceMetric::Euclidean) && matches!(op, Op::Ins { v, .. } if v.iter().map(|x| (*x as f64) * (*x as f64)).sum::<f64>() <= 1.3e-7) => {
+                out.refused_full += 1;
+            }
             Err(e) => {
                 out.violation = Some((
                     format!("C02|unexpected-error|{}", op.short().split('(').next().unwrap_or("op")),
@@ -195,6 +200,43 @@ fn grid(tier: &str) -> Vec<BackendCfg> {
         v.push(mk("inner_product", 2, 2, 1, 64));
     }
     v
+}
+
+/// Numeric-grid history: `n` documents with un-normalised vectors over seven magnitudes (1e-3 ..
+/// 1e3), signed-zero components, a restart in the middle (WAL replay), a snapshot, two more
+/// restarts (snapshot load, then snapshot load again), overwrites and a last restart (snapshot +
+/// WAL tail). Under cosine / inner product every recovery re-runs the normalisation on vectors
+/// that are already normalised, so stored bits only survive if that step is idempotent on every
+/// rounding outcome; small "nice" alphabets never exercise that.
+pub fn numeric_grid_history(dim: usize, n: usize) -> Vec<Op> {
+    use vcore::model::meta1;
+    let scales = [1.0f32, 0.37, 2.5, 1e-3, 1e3, 0.999, 17.0];
+    let vector = |i: usize, salt: usize| -> Vec<f32> {
+        let s = scales[(i + salt) % scales.len()];
+        let mut v: Vec<f32> = (0..dim).map(|j| (((i * 7919 + j * 104_729 + i * j * 31 + salt * 613) % 2001) as f32 / 1000.0 - 1.0) * s).collect();
+        if i % 11 == 3 && dim > 1 {
+            v[dim - 1] = -0.0;
+        }
+        if v.iter().all(|x| *x == 0.0) {
+            v[0] = s;
+        }
+        v
+    };
+    let mut h = Vec::new();
+    for i in 0..n {
+        h.push(Op::Ins { id: (i + 1) as u64, v: vector(i, 0), m: meta1("i", &i.to_string()) });
+        if i == n / 2 {
+            h.push(Op::Restart);
+        }
+    }
+    h.push(Op::Snap);
+    h.push(Op::Restart);
+    h.push(Op::Restart);
+    for i in (0..n).step_by(5) {
+        h.push(Op::Ins { id: (i + 1) as u64, v: vector(i, 3), m: meta1("o", &i.to_string()) });
+    }
+    h.push(Op::Restart);
+    h
 }
 
 pub fn run(tier: &str, replay: Option<&str>) -> i32 {
@@ -271,6 +313,33 @@ pub fn run(tier: &str, replay: Option<&str>) -> i32 {
             rep.report(&sig, replay);
         }
     }
+    // numeric grid: metric x dimension x (rotation, snapshot interval)
+    let ngrid_n: usize = if tier == "thorough" { 600 } else { 150 };
+    let mut ngrid: Vec<BackendCfg> = Vec::new();
+    for metric in ["cosine", "inner_product", "euclidean"] {
+        for dim in [2usize, 3, 8, 17, 48] {
+            for (snap, rot) in [(0usize, 1u64 << 20), (7, 1)] {
+                ngrid.push(BackendCfg { metric: metric.into(), dim, capacity: ngrid_n + 8, snap_interval: snap, rotation: rot, fsync: "always".into() });
+            }
+        }
+    }
+    let ngrid_out = vcore::par::par_map(&ngrid, |gi, cfg| {
+        let scratch = Scratch::new(&format!("c02g{gi}"));
+        let hist = numeric_grid_history(cfg.dim, ngrid_n);
+        let o = run_history(cfg, &hist, &scratch, 0);
+        (o.ops_executed, o.restarts, o.violation.map(|(sig, detail)| (format!("{sig}|numeric-grid"), json!({"engine":"seqmc","check":"C02","cfg": cfg, "history": hist, "detail": detail.chars().take(600).collect::<String>()}))))
+    });
+    let mut ngrid_ops = 0u64;
+    let mut ngrid_restarts = 0u64;
+    for (o, r, v) in ngrid_out {
+        ngrid_ops += o;
+        ngrid_restarts += r;
+        if let Some((sig, replay)) = v {
+            rep.report(&sig, replay);
+        }
+    }
+    ev.set("numeric_grid", json!({"configurations": ngrid.len(), "documents_per_history": ngrid_n, "operations": ngrid_ops, "restart_checks": ngrid_restarts,
+        "rule": "metric x dim {2,3,8,17,48} x {manual snapshot + no rotation, snapshot every 7 + rotate every write}: a fixed lattice of un-normalised vectors over seven magnitudes (1e-3..1e3) with signed-zero components is inserted, restarted mid-way (WAL replay), snapshotted, restarted twice, partly overwritten, restarted; every restart compares live and recovered dumps bit for bit"}));
     let alpha = std_alphabet(2);
     ev.set("states", states.len() as u64);
     ev.set("transitions", ops);
